@@ -274,6 +274,10 @@ func insertAfter(text string, idx int, newLine string) string {
 
 // injectFault returns a mutated copy of defs with exactly one fault of the given class, or ok=false if
 // the class cannot be applied to this program.
+// faultRootFields: fields of the Query type whose type is an object, an interface or a union and which need no
+// arguments (set by runBad from the program's schema; abstract-typed ones listed twice)
+var faultRootFields []string
+
 func injectFault(defs []gen.Def, class string, objectTypes []string, r *proto.Rng) ([]gen.Def, fault, bool) {
 	out := append([]gen.Def{}, defs...)
 	commentLines := func(d gen.Def) int { return strings.Count(d.Comment, "\n") }
@@ -406,9 +410,15 @@ func injectFault(defs []gen.Def, class string, objectTypes []string, r *proto.Rn
 		f.Def, f.Line = len(out)-1, 1
 		f.AltLine = -1
 	case "missing-selection":
-		// a composite-typed root field of Query without a selection: needs schema knowledge; use `... on Query` nested
-		// object spread without braces is a syntax error, so instead: empty inline fragment is a syntax error too.
-		return nil, f, false
+		// a composite-typed root field of Query selected WITHOUT a sub-selection (ScalarLeafs): object-, interface- and
+		// union-typed fields alike (for an abstract type the generator itself would add `{ __typename }` later — the
+		// operation as the user wrote it is invalid all the same).  Needs the schema: faultRootFields, set by the caller.
+		if len(faultRootFields) == 0 {
+			return nil, f, false
+		}
+		rf := proto.Pick(r, faultRootFields)
+		out = append(out, gen.Def{Kind: "query", Name: "ZzMissingSelection", Text: "query ZzMissingSelection {\n  " + rf + "\n}\n"})
+		f.Def, f.Line = len(out)-1, 2
 	case "bogus-directive-argument":
 		di := pickDef(anyDef)
 		d := out[di]
